@@ -24,7 +24,7 @@ ASSUMPTIONS = [
     "come back as null/[]/{}; date-times are compared as instants",
     "for byte streams only the concatenation is compared (the bundled transport reads the body before the generated method iterates it)",
 ]
-BOUND = {"quick": "~215 operations (27 content kinds) inline and through component refs x <=3 bodies (streams: 4 SSE framings x <=3 chunkings)", "thorough": "same + pairs over all 18x18 content kinds for (200,201)"}
+BOUND = {"quick": "~215 operations (27 content kinds) inline and through component refs x <=3 bodies (streams: 4 SSE framings x <=3 chunkings)", "thorough": "same + every content kind x every content kind for the status pairs (200,201), (201,202), (206,200)"}
 CHUNK = 1
 PACK = 8
 
@@ -43,9 +43,10 @@ def op_cases(tier):
     for k in ALL_KINDS:
         out.append(ops.op("get", "/r", [], None, {"default": k}))
     for a, b in [("200", "201"), ("201", "200"), ("200", "204"), ("204", "200"), ("201", "202"), ("202", "201"), ("206", "200")]:
-        kinds_a = PAIR_A if tier == "quick" or (a, b) != ("200", "201") else list(ops.RESP_KINDS)
+        full = tier != "quick" and (a, b) in (("200", "201"), ("201", "202"), ("206", "200"))   # thorough: every kind x every kind
+        kinds_a = list(ops.RESP_KINDS) if full else PAIR_A
         for ka in kinds_a:
-            kbs = ["json-other", "none"] if tier == "quick" or (a, b) != ("200", "201") else list(ops.RESP_KINDS)
+            kbs = list(ops.RESP_KINDS) if full else ["json-other", "none"]
             for kb in kbs:
                 ra = "none" if a == "204" else ka
                 rb = "none" if b == "204" else kb
